@@ -1,4 +1,8 @@
+import Hannibal.Props.C01PCurrent
 import Hannibal.Props.C01Current
 #print axioms Hannibal.C01_holds
 #print axioms Hannibal.C01_current
 #print axioms Hannibal.monC01_step
+#print axioms Hannibal.C01p_holds
+#print axioms Hannibal.C01p_holds_fresh
+#print axioms Hannibal.C01p_current
